@@ -285,8 +285,17 @@ class Table(Vector):
 		"""Return list of available attributes including sanitized column names."""
 		# Use object.__dir__ to get instance attributes, then add column names
 		base_attrs = object.__dir__(self)
-		return set(list(self._build_column_map().keys()) + base_attrs)
+		# _build_column_map() marks renamed columns as seen, so keep what it built:
+		# otherwise the cached map stays stale for good after dir()
+		self._column_map = self._build_column_map()
+		return set(list(self._column_map.keys()) + base_attrs)
 	
+	def _current_column_map(self):
+		"""Cached column map, rebuilt first if a column was renamed through a view."""
+		if any(col._wild for col in self._underlying or []):
+			self._column_map = self._build_column_map()
+		return self._column_map
+
 	def column_names(self):
 		"""Return list of column names (original names, not sanitized).
 		
@@ -431,7 +440,8 @@ class Table(Vector):
 				return
 			
 			# Regular column lookup by name
-			col_idx = self._column_map.get(attr) or self._column_map.get(attr.lower())
+			column_map = self._current_column_map()
+			col_idx = column_map.get(attr) or column_map.get(attr.lower())
 			if col_idx is not None:
 				# Replace the column in _underlying
 				if not isinstance(value, Vector):
@@ -705,7 +715,8 @@ class Table(Vector):
 			target_indices = [col_spec]
 		elif isinstance(col_spec, str):
 			# Look up by name
-			idx = self._column_map.get(col_spec) or self._column_map.get(col_spec.lower())
+			column_map = self._current_column_map()
+			idx = column_map.get(col_spec) or column_map.get(col_spec.lower())
 			if idx is None:
 				raise SerifKeyError(f"Column '{col_spec}' not found")
 			target_indices = [idx]
@@ -713,7 +724,8 @@ class Table(Vector):
 			# Handle list of names/ints
 			for c in col_spec:
 				if isinstance(c, str):
-					idx = self._column_map.get(c) or self._column_map.get(c.lower())
+					column_map = self._current_column_map()
+					idx = column_map.get(c) or column_map.get(c.lower())
 					if idx is None:
 						raise SerifKeyError(f"Column '{c}' not found")
 					target_indices.append(idx)
